@@ -72,9 +72,147 @@ def assignments(ctx, rattrs, limit):
             yield [(k, v) for k, v in zip(keys, combo) if v is not None] + ([(FOREIGN, "f")] if foreign else []), False
 
 
+
+# ------------------------------------------------------------------ returned containers are mutable (lesson k)
+def attr_facts(rule_obj, rname, rattrs, content):
+    """What the queries report and what validation enforces for one rule, through the given Rule object:
+    (queries per attribute, attribute codes of a fixed enumeration of assignments)."""
+    from metapype.model.node import Node
+    q = []
+    for k in rattrs:
+        try:
+            q.append([k, bool(rule_obj.is_required_attribute(k)), list(rule_obj.allowed_attribute_values(k))])
+        except Exception as e:  # noqa
+            q.append([k, "RAISED:" + type(e).__name__])
+    base = [(k, (sp[1] if len(sp) > 1 else "v")) for k, sp in rattrs.items() if sp[0] is True]
+    probes = [base, base + [(FOREIGN, "f")], []]
+    for k, sp in rattrs.items():
+        rest = [kv for kv in base if kv[0] != k]
+        for v in [x for x in sp[1:] if isinstance(x, str)] + [UNLISTED, "", "zz-injected"]:
+            probes.append(rest + [(k, v)])
+    v = []
+    for a in probes:
+        n = RL.build_node("x", content, a, [])
+        errs = []
+        try:
+            rule_obj.validate_rule(n, errs)
+            v.append([e[0].name for e in errs if e[0].name.startswith("ATTRIBUTE_")])
+        except Exception as e:  # noqa
+            v.append(["RAISED:" + type(e).__name__])
+        Node.store.clear()
+    return q, v, probes
+
+
+def facts_match_table(q, v, probes, rattrs):
+    """the statement: queries report the table, validation enforces the table"""
+    for item in q:
+        k = item[0]
+        if len(item) != 3 or item[1] != (rattrs[k][0] is True) or item[2] != list(rattrs[k][1:]):
+            return f"query for {k!r} reports {item[1:]}, the table says {rattrs[k]}"
+    for a, got in zip(probes, v):
+        exp = [c for c, _ in expected_violations(rattrs, a)]
+        if got != exp:
+            return f"validation of attributes {a} reports {got}, the table implies {exp}"
+    return None
+
+
+def aliasing_phase(ctx, pristine):
+    """Mutate every container the introspection API hands out and re-run the queries and the validation
+    enumeration through a kept and a fresh Rule object: the query results must be copies (nothing changes);
+    the property values that expose the rule's own data may alias it, but queries and validation must then
+    still report/enforce the same (edited) table. The live table is restored from the file copy afterwards."""
+    import copy
+    from metapype.eml import rule as R
+    for rname in list(pristine):
+        rattrs0 = pristine[rname][0]
+        if not rattrs0:
+            continue
+        content = RL.canonical_content(pristine[rname])
+        kept = R.Rule(rname)
+        q0, v0, probes = attr_facts(R.Rule(rname), rname, rattrs0, content)
+        # (1) the list returned by allowed_attribute_values
+        for k in rattrs0:
+            for op in ("append", "remove-first", "clear", "insert-empty-string"):
+                vals = kept.allowed_attribute_values(k)
+                if op == "append":
+                    vals.append("zz-injected")
+                elif op == "remove-first":
+                    if vals:
+                        del vals[0]
+                elif op == "clear":
+                    vals.clear()
+                else:
+                    vals.insert(0, "")
+                ctx.case(("alias", rname, k, op))
+                ctx.count("aliasing_probes")
+                for who, obj in (("kept Rule object", kept), ("fresh Rule object", R.Rule(rname))):
+                    q, v, _ = attr_facts(obj, rname, rattrs0, content)
+                    why = facts_match_table(q, v, probes, rattrs0)
+                    if (q, v) != (q0, v0) or why:
+                        ctx.fail(f"C03:introspection-aliasing:{rname}",
+                                 f"after a caller applied {op} to the list returned by allowed_attribute_values({k!r}), the {who} "
+                                 f"reports/enforces something else: {why or 'differs from before the edit'}",
+                                 {"kind": "impl-vs-statement", "rule": rname, "attribute": k, "edit_of_returned_list": op, "through": who,
+                                  "queries_before": q0, "queries_after": q, "table": rattrs0,
+                                  "validation_before": v0, "validation_after": v, "probe_assignments": probes})
+                if R.rules_dict[rname] != pristine[rname]:
+                    ctx.fail(f"C03:introspection-aliasing:{rname}", f"editing the list returned by allowed_attribute_values({k!r}) changed the live rule table",
+                             {"kind": "impl-vs-statement", "rule": rname, "attribute": k, "edit_of_returned_list": op,
+                              "live_entry": R.rules_dict[rname], "file_entry": pristine[rname]})
+                    R.rules_dict[rname] = copy.deepcopy(pristine[rname])
+                    kept = R.Rule(rname)
+        # (2) the property values: they expose the rule's own data; after an edit through them queries and
+        #     validation must still agree with each other, i.e. with the table as it is NOW
+        for prop in ("attributes", "children", "content_rules", "content_enum"):
+            kept = R.Rule(rname)
+            c = getattr(kept, prop)
+            if prop == "attributes":
+                k0 = next(iter(c))
+                c[k0] = [not c[k0][0]] + list(c[k0][1:]) + ["zz-injected"]
+                c["zzInjectedAttr"] = [True, "a", ""]
+            elif prop == "children":
+                def first_el(x):
+                    if x and isinstance(x[0], str):
+                        return x
+                    for y in x:
+                        if isinstance(y, list):
+                            r = first_el(y)
+                            if r is not None:
+                                return r
+                    return None
+                el = first_el(c)
+                if el is None:
+                    c.append(["zzChild", 0, None])
+                else:
+                    el[0], el[-1] = "zzRenamedChild", 7          # shape-preserving edit
+            elif prop == "content_rules":
+                c.append("anyContent")
+            else:
+                c.append("zz-injected")
+            live_attrs = copy.deepcopy(R.rules_dict[rname][0])
+            ctx.case(("alias-prop", rname, prop))
+            ctx.count("aliasing_probes")
+            for who, obj in (("kept Rule object", kept), ("fresh Rule object", R.Rule(rname))):
+                q, v, pr = attr_facts(obj, rname, live_attrs, content)
+                why = facts_match_table(q, v, pr, live_attrs)
+                if why:
+                    ctx.fail(f"C03:introspection-aliasing:{rname}",
+                             f"after a caller edited the value of Rule.{prop}, queries and validation through the {who} no longer agree with the rule table: {why}",
+                             {"kind": "impl-vs-statement", "rule": rname, "edited_property": prop, "through": who, "live_attribute_table": live_attrs,
+                              "queries_after": q, "validation_after": v, "probe_assignments": pr})
+            # this check itself edited the table through a property that exposes it: put the file copy back
+            R.rules_dict[rname] = copy.deepcopy(pristine[rname])
+        q, v, _ = attr_facts(R.Rule(rname), rname, rattrs0, content)
+        if (q, v) != (q0, v0):
+            ctx.fail(f"C03:introspection-aliasing:{rname}", "after the table entry was restored a fresh Rule object still reports/enforces something else",
+                     {"kind": "impl-vs-statement", "rule": rname, "queries_before": q0, "queries_after": q, "validation_before": v0, "validation_after": v})
+
+
 def run(ctx):
     from metapype.eml import rule as R
     built = ctx.build(extra_targets=["theories/Model/RuleRun.v"])
+    from harness import vtrees as VT
+    pristine = VT.file_rules()          # the statement is computed from the file, never from the live table
     rules = RL.live_rules()
     limit = 4096 if ctx.tier == "thorough" else 600
     ctx.extra["rule"] = ("per rule: complete product of {absent, each listed value, one unlisted value} per declared attribute x "
@@ -83,7 +221,8 @@ def run(ctx):
                          "with at least one attribute present or one required attribute absent" % limit)
     cases, wants, meta = [], [], []
     exhaustive = True
-    for rname, rj in rules.items():
+    for rname in list(rules):
+        rj = pristine.get(rname, rules[rname])
         rattrs = rj[0]
         content = RL.canonical_content(rj)
         for attrs, complete in assignments(ctx, rattrs, limit):
@@ -143,6 +282,18 @@ def run(ctx):
         except Exception:
             pass
     ctx.extra["exhaustive"] = exhaustive
+    # the table must be what the file says after all these validations and queries ...
+    changed = VT.table_diff()
+    if changed:
+        ctx.fail("C03:history:table-mutated", f"validation/introspection changed the live rule table: {changed[:5]}",
+                 {"kind": "impl-vs-statement", "rules_changed": changed, "live": {k: rules.get(k) for k in changed[:3]},
+                  "file": {k: pristine.get(k) for k in changed[:3]}})
+    # ... and the containers the introspection API hands out must not be a way to change what is reported/enforced
+    aliasing_phase(ctx, pristine)
+    changed = VT.table_diff()
+    if changed:
+        ctx.fail("C03:history:table-mutated", f"the live rule table differs from rules.json after the aliasing phase restored it: {changed[:5]}",
+                 {"kind": "impl-vs-statement", "rules_changed": changed})
     # (B) correspondence: model evaluated in Coq on the same cases
     bad, errors = RL.coq_compare(ctx, "corr", "run_rncase tb", cases, wants)
     ctx.extra["traces_validated_against_impl"] = len(cases) - len(bad)
